@@ -404,7 +404,7 @@ func (k *K) fail(monitor, class, detail string) {
 		Stream: k.Stream, Index: k.Index, Monitor: monitor, Class: class, Detail: detail, Inputs: inputs}
 	b, _ := json.MarshalIndent(spec, "", " ")
 	h := sha256.Sum256([]byte(fmt.Sprintf("%s|%s|%s|%d|%d|%s", k.c.Prop.ID, monitor, k.Stream, k.Index, k.c.Seed, k.c.Tier)))
-	dir := filepath.Join(k.c.Root, "replays", k.c.Prop.ID)
+	dir := filepath.Join(ReplayRoot(k.c.Root), k.c.Prop.ID)
 	os.MkdirAll(dir, 0o755)
 	path := filepath.Join(dir, hex.EncodeToString(h[:6])+".json")
 	if k.c.replay == nil {
@@ -470,7 +470,22 @@ func (c *Ctx) flush() {
 	os.Rename(path+".tmp", path)
 }
 
-func workDir(root, prop string) string { return filepath.Join(root, "work", prop) }
+// WorkRoot / ReplayRoot: per-invocation scratch and witness directories. An
+// instance name (VERIF_INSTANCE) isolates concurrent invocations of the checks
+// (e.g. a mutant sweep next to interactive runs).
+func WorkRoot(root string) string {
+	if i := os.Getenv("VERIF_INSTANCE"); i != "" {
+		return filepath.Join(root, "work", "inst-"+i)
+	}
+	return filepath.Join(root, "work")
+}
+func ReplayRoot(root string) string {
+	if i := os.Getenv("VERIF_INSTANCE"); i != "" {
+		return filepath.Join(root, "work", "inst-"+i, "replays")
+	}
+	return filepath.Join(root, "replays")
+}
+func workDir(root, prop string) string { return filepath.Join(WorkRoot(root), prop) }
 func shardPath(root, prop, variant string, shard int) string {
 	return filepath.Join(workDir(root, prop), fmt.Sprintf("shard-%s-%d.json", variant, shard))
 }
